@@ -127,4 +127,15 @@ ENS(q_case == 3 ==> RET == HWLOC_BITMAP_CONTAINS)
 ENS(q_case == 4 ==> RET == HWLOC_BITMAP_DIFFERENT)
 ;
 
+/* weight: exact value.  The partial-sum induction cannot be carried by a ghost-index invariant, so this
+ * clause is a BOUNDED stand-in: bitmaps of at most 4 words, loop unwound (no loop contract). */
+#define PC(w) __builtin_popcountl(w)
+int hwloc_bitmap_weight__q(const struct hwloc_bitmap_s * set)
+REQ(BM(set) && set->ulongs_count <= 4)
+WIT_B(0, set)
+ASG()
+ENS(T(set) ==> RET == -1)
+ENS(!T(set) ==> RET == PC(W(set, 0u)) + PC(W(set, 1u)) + PC(W(set, 2u)) + PC(W(set, 3u)))
+;
+
 #endif
